@@ -81,6 +81,19 @@ func (p *parsing) parseSwitch(tok token, end tokenTyp) ast.Node {
 			panic(syntaxError(tok.pos, "use of .(type) outside type switch"))
 		}
 		expressions, tok = p.parseExprList(p.next(), true, false, true)
+		if isAssignmentToken(tok) {
+			// switch ; x := a.(type) {
+			// switch f(3); x := a.(type) {
+			if expressions == nil {
+				panic(syntaxError(tok.pos, "unexpected %s, expecting expression", tok))
+			}
+			assignment, tok = p.parseAssignment(expressions, tok, false, true, true)
+			if !isTypeGuard(assignment) || len(assignment.Lhs) != 1 {
+				panic(cannotUseAsValueError(tok.pos, assignment))
+			}
+			afterSemicolon = assignment
+			break
+		}
 		switch len(expressions) { // # of expressions after ;
 		case 0:
 			// switch ; {
@@ -129,11 +142,10 @@ func (p *parsing) parseSwitch(tok token, end tokenTyp) ast.Node {
 					panic(syntaxError(tok.pos, "unexpected %s, expecting expression", tok))
 				}
 				assignment, tok = p.parseAssignment(expressions, tok, false, true, true)
-				ta, ok := assignment.Rhs[0].(*ast.TypeAssertion)
 				// TODO (Gianluca): should error contain the position of the
 				// expression which caused the error instead of the token (as Go
 				// does)?
-				if !ok || ta.Type != nil || len(assignment.Lhs) != 1 {
+				if !isTypeGuard(assignment) || len(assignment.Lhs) != 1 {
 					panic(cannotUseAsValueError(tok.pos, assignment))
 				}
 				afterSemicolon = assignment
